@@ -363,7 +363,7 @@ class C05(PropertyCheck):
         _, _, _, Gate, QubitCircuit = sc._mods()
         for name in sorted(tree_set or []):
             res.case({"set-name": name}, nontrivial=True, tags=["name-semantics"])
-            if name not in sc.LIBRARY and name not in ("PHASEGATE", "IDLE"):
+            if name not in sc.LIBRARY:
                 res.disagree({"set-name": name}, "a gate of the harness table", "unknown",
                              "_SELF_COMMUTING_GATES lists a name the harness has no gate for", None)
                 continue
@@ -448,7 +448,7 @@ class C05(PropertyCheck):
             L = rng.randint(1, 14)
             pool = P5[N]
             if rng.random() < 0.4:      # few names / few qubits: many commuting pairs and ties
-                names = rng.sample(["CNOT", "X", "RX", "Z", "RZ", "CZ", "QASMU", "SWAP", "TOFFOLI", "FREDKIN", "CRX"], 3)
+                names = rng.sample(sc.FEW_NAMES, 3)
                 pool = sc.placements(N, [n for n in names if sum(sc.LIBRARY[n][:2]) <= N] or ["X"])
             seq = [rng.choice(pool) for _ in range(L)]
             if rng.random() < 0.05:
@@ -460,6 +460,12 @@ class C05(PropertyCheck):
             repeat = rng.choice([1, 2, 3]) if rng.random() < 0.08 else 0
             batch.append((specs, N, m, p, rng.random() < 0.5, repeat))
         self._flush(ctx, res, batch, "random")
+        # a gate between two non-commuting gates on one qubit (every one-qubit name as the gate in between) ---------
+        shapes = list(sc.interleave_shapes(full=ctx.thorough))
+        if not ctx.thorough:
+            shapes = shapes[:105] + rng.sample(shapes[105:], 600)
+        batch = [(specs_from(seq), 2, m, p, k % 5 == 0, 0) for k, seq in enumerate(shapes) for m, p in settings]
+        self._flush(ctx, res, batch, "interleaved")
         # degenerate / malformed -----------------------------------------------------------
         batch = [([], 2, m, p, False, 0) for m, p in settings]
         batch += [(specs_from([("GLOBALPHASE", [], [])] * k), 2, m, p, False, 0) for k in (1, 2) for m, p in settings]
@@ -587,7 +593,16 @@ class C05(PropertyCheck):
                          for _ in range(rng.randint(2, 3))]
                 yield {"history": calls, "method": rng.choice(["ASAP", "ALAP"]), "perm": True, "scope": "covered"}
 
+    def _interleaved(self, full=False):
+        for seq in sc.interleave_shapes(full=full):
+            for m in ("ASAP", "ALAP"):
+                yield {"N": 2, "gates": specs_from(seq), "method": m, "perm": True, "shuf": None, "repeat": 0,
+                       "scope": "covered"}
+            yield {"N": 2, "gates": specs_from(seq), "method": "ASAP", "perm": True, "shuf": None, "shuffle_seed": len(seq),
+                   "repeat": 0, "scope": "covered"}
+
     def _systematic(self):
+        yield from self._interleaved()
         P = sc.placements(3)
         for L in (1, 2):
             for seq in itertools.product(P, repeat=L):
@@ -600,7 +615,7 @@ class C05(PropertyCheck):
         N = rng.choice([2, 3, 4, 5])
         P = sc.placements(N)
         if rng.random() < 0.5:
-            names = rng.sample(["CNOT", "X", "RX", "Z", "RZ", "CZ", "Y", "RY", "SWAP", "TOFFOLI", "CRX", "S", "T"], 4)
+            names = rng.sample(sc.FEW_NAMES, 4)
             P = sc.placements(N, [n for n in names if sum(sc.LIBRARY[n][:2]) <= N] or ["X"])
         specs = specs_from([rng.choice(P) for _ in range(rng.randint(2, 12))])
         return {"N": N, "gates": specs, "method": rng.choice(["ASAP", "ALAP"]), "perm": rng.random() < 0.75,
@@ -616,7 +631,13 @@ class C05(PropertyCheck):
             if f:
                 yield w, d
         for w in self._history_witnesses():
-            if time.time() - t0 > budget_s * 0.8:
+            if time.time() - t0 > budget_s * 0.7:
+                break
+            f, d = self.oracle_replay(ctx, w)
+            if f:
+                yield w, d
+        for w in self._interleaved(full=True):
+            if time.time() - t0 > budget_s * 0.9:
                 break
             f, d = self.oracle_replay(ctx, w)
             if f:
@@ -650,6 +671,12 @@ class C05(PropertyCheck):
         for _ in range(250):
             w = self._random_witness(ctx.rng)
             w["repeat"] = 0
+            f, d = self.oracle_replay(ctx, w)
+            if f:
+                yield w, d
+        # a gate (every one-qubit name, IDLE included) between two non-commuting gates on one qubit
+        inter = list(self._interleaved())
+        for w in inter[:315] + ctx.rng.sample(inter[315:], 300):
             f, d = self.oracle_replay(ctx, w)
             if f:
                 yield w, d
